@@ -35,7 +35,7 @@ For each change i = 1..{n} create a directory {wt}/out/m<i>/ containing:
   - meta.json    {{"property":"{ID}","summary":"...","breaks_sentence":"which sentence of the statement","needs":"what
                   specific situation it needs to manifest","demo_pkg":"<package dir>","demo_run":"<-run regex>",
                   "ran":["commands you ran and their outcomes"]}}
-Keep the working tree clean between changes (`git -C {wt} checkout -- . && git -C {wt} clean -fdq -e out`), and
+NEVER use `git stash` (the stash is shared by all worktrees of the repository and other agents work in sibling worktrees); to test with/without a change use `git diff > p.diff; git apply -R p.diff; ...; git apply p.diff`. Keep the working tree clean between changes (`git -C {wt} checkout -- . && git -C {wt} clean -fdq -e out`), and
 leave it clean at the end (only out/ remains, untracked). Reply with a short list of the changes (2-3 lines each:
 what, which sentence it breaks, what it needs) and confirm for each: existing tests pass, demo fails with / passes
 without the patch.""")
